@@ -163,6 +163,8 @@ OutLife(m, f, l) ==
                         THEN "stream_closed_for_peer_frame_on_an_implicitly_cancelled_stream_whose_reset_was_still_queued"
                         ELSE IF ty = "RST_STREAM" /\ LocallyInit(m, s) /\ ~x.surfaced /\ ~x.resL
                         THEN "repeated_rst_stream_answering_peer_headers_on_an_idle_local_stream"
+                        ELSE IF ty = "RST_STREAM" /\ ~LocallyInit(m, s) /\ x.inAfterRst /\ x.want = "" /\ ~x.surfaced
+                        THEN "rst_stream_for_late_malformed_frame_on_forgotten_stream"
                         ELSE ty)
               ELSE IF x.o = "es"
               THEN Check(m3, "C04.after_es", ty \in {"WINDOW_UPDATE", "RST_STREAM"}, l, s, ty)
